@@ -538,7 +538,10 @@ def write_evidence(pid, tier, seed, spec, results, build_info, gen_info, wall, i
         h = r["h"]
         evaluations += max(0, r["checks_total"] - r["checks_failed"])
         if r["class"] == "pass" and r["covers_total"] > 0 and r["covers_sat"] == r["covers_total"]:
-            nontrivial.add((h["build"], h["fn"]))
+            for d in r.get("user_assertions", []):
+                nontrivial.add((h["build"], h["fn"], "assert", d))
+            for d in r.get("sat_covers", []):
+                nontrivial.add((h["build"], h["fn"], "cover", d))
         solver += r.get("solver_s") or 0.0
         symex += r.get("symex_s") or 0.0
         for fn in (h.get("funcs") or "").split(","):
@@ -579,10 +582,11 @@ def write_evidence(pid, tier, seed, spec, results, build_info, gen_info, wall, i
                  "pointer/arith/bounds checks) discharged by the SAT solver over all inputs within each harness's stated "
                  "bound, plus (where the check has an SMT part) the leaves of the exhaustive path enumeration, each leaf's "
                  "path condition being a solver-checked set of haystacks on which the compared results are concrete; "
-                 "distinct_nontrivial = harness x build pairs that verified AND whose kani::cover! reachability "
-                 "witnesses were all satisfied, plus SMT explorations that passed and contain both matching and "
-                 "non-matching leaves (i.e. non-vacuous).",
-            samples=hs[:400],
+                 "distinct_nontrivial = distinct (build, harness, assertion text) triples for the assertions WRITTEN IN THE "
+                 "HARNESS that the solver proved, plus the distinct kani::cover! reachability witnesses it satisfied - "
+                 "counted only for harnesses that verified with every witness satisfied (non-vacuous) - plus SMT "
+                 "explorations that passed and contain both matching and non-matching leaves.",
+            samples=(hs[:400] if hs else (smt_summary["cases"][:50] if smt_summary else [])),
             exhaustive=False,
             engine="Kani 0.68.0 -> CBMC 6.11.0 -> CaDiCaL; encoding regenerated from /repo working tree (digest %s)"
                    % mirror.repo_src_digest(),
